@@ -82,7 +82,8 @@ class WireManagerBase(abc.ABC):
                 else:
                     expected = coincident.grading.inverted
 
-                if wire.grading != expected:
+                # Grading.__eq__ compares with a relative tolerance; cell counts must match exactly
+                if wire.grading.count != coincident.grading.count or wire.grading != expected:
                     raise InconsistentGradingsError(
                         f"Inconsistent gradings on coincident wires {wire} ({wire.grading}) and "
                         f"{coincident} ({coincident.grading})"
